@@ -43,7 +43,7 @@ def main():
                 continue
             env = dict(ENV, VERIF_REPO=wt, VERIF_EVIDENCE_DIR=evd, VERIF_REPLAY_DIR=evd)
             for c in checks:
-                p = subprocess.run(["./check", c, "quick"], cwd="/verif", env=env, stdout=subprocess.PIPE, stderr=subprocess.STDOUT, timeout=3600)
+                p = subprocess.run(["./check", c, "quick"], cwd=os.environ.get("VERIF_HOME", "/verif"), env=env, stdout=subprocess.PIPE, stderr=subprocess.STDOUT, timeout=3600)
                 res[c] = p.returncode
         finally:
             subprocess.run(["git", "-C", "/repo", "worktree", "remove", "--force", wt])
